@@ -93,6 +93,20 @@ func runC12(c *Ctx) {
 			c.Count("outcome:" + strings.SplitN(out, ":", 2)[0] + ":" + op)
 		}
 	}
+	// a narrative xhtml element, always (generated resources carry one only sometimes)
+	{
+		res := mustResource(`{"resourceType":"Patient","id":"x","text":{"status":"generated","div":"<div xmlns=\"http://www.w3.org/1999/xhtml\">x</div>"}}`)
+		for _, w := range []struct{ src, want string }{{"Patient.text.`div` is Element", "ok:t"}, {"Patient.text.`div` is DomainResource", "ok:f"}, {"Patient.text.`div` is Resource", "ok:f"}, {"Patient.text.`div` is BackboneElement", "ok:f"},
+			{"Patient.text.`div`.exists()", "ok:t"}, {"Patient.descendants().all($this is Element)", "ok:t"}, {"Patient.text is Narrative", "ok:t"}, {"Patient.text.status is code", "ok:t"}, {"(Patient.text.`div` as Element).exists()", "ok:t"}} {
+			o := compileEval(w.src, []fhir.Resource{res})
+			got := "err"
+			if o.Err == nil && !o.Panicked {
+				got = "ok:" + boolAbs(o.Coll)
+			}
+			c.Observe("xhtml "+w.src, true)
+			c.Law(got == w.want, "C12/xhtml", "the narrative xhtml element is an Element and no resource or backbone type", w.src, got)
+		}
+	}
 	g := &ResGen{r: c.rng, maxDepth: 3, density: 45}
 	per := 1
 	if c.thorough {
@@ -118,6 +132,26 @@ func runC12(c *Ctx) {
 				facts := typeFacts(m)
 				c.Count("kind:" + strings.Join(strings.Split(facts, ":")[2:], ""))
 				own := strings.Split(facts, ":")[1]
+				if own == "Xhtml" {
+					// the narrative's xhtml is outside the reference type table (google/fhir names it Xhtml):
+					// it is an Element and nothing else of the hierarchy
+					for _, w := range []struct {
+						t    string
+						want string
+					}{{"Element", "ok:t"}, {"Resource", "ok:f"}, {"DomainResource", "ok:f"}, {"BackboneElement", "ok:f"}, {"Patient", "ok:f"}, {"Quantity", "ok:f"}} {
+						e, ok := compile("is", "-", w.t)
+						if !ok {
+							continue
+						}
+						o := safeEval(func() (system.Collection, error) { return e.Evaluate(input, evalopts.EnvVariable("x", m)) })
+						got := "err"
+						if o.Err == nil && !o.Panicked {
+							got = "ok:" + boolAbs(o.Coll)
+						}
+						c.Observe("xhtml is "+w.t, true)
+						c.Law(got == w.want, "C12/xhtml", "the narrative xhtml element is an Element and no resource or backbone type", "Narrative.div is "+w.t, got)
+					}
+				}
 				names := []string{own, strings.ToLower(own[:1]) + own[1:]}
 				names = append(names, bases...)
 				names = append(names, "code", "string", "integer", "uri", "Quantity") // targets of the specialisation rules
